@@ -163,6 +163,9 @@ pub struct Gen<'t, 'a, 'g> {
     pub in_finally: usize,
     /// while set, `any` positions avoid number-typed values
     pub no_numbers: bool,
+    /// while set, expressions do not read string/array/object variables (assignment right-hand sides:
+    /// `v = v + v` in nested loops would grow without bound)
+    pub no_big_vars: bool,
     /// round-robin counters so that operator × type pairs and library entries are all hit
     pub rr: BTreeMap<&'static str, usize>,
 }
@@ -189,6 +192,7 @@ impl<'t, 'a, 'g> Gen<'t, 'a, 'g> {
             shadow_depth: 0,
             in_finally: 0,
             no_numbers: false,
+            no_big_vars: false,
             rr: BTreeMap::new(),
         }
     }
@@ -251,7 +255,12 @@ impl<'t, 'a, 'g> Gen<'t, 'a, 'g> {
     }
 
     pub fn vars_of(&self, pred: impl Fn(&Ty) -> bool) -> Vec<Var> {
-        self.visible().into_iter().filter(|v| pred(&v.ty)).collect()
+        let no_big = self.no_big_vars;
+        self.visible()
+            .into_iter()
+            .filter(|v| pred(&v.ty))
+            .filter(|v| !(no_big && matches!(v.ty, Ty::Str | Ty::Arr(_) | Ty::Any | Ty::Rec(_))))
+            .collect()
     }
 
     pub fn pick_var(&mut self, pred: impl Fn(&Ty) -> bool) -> Option<Var> {
